@@ -14,6 +14,7 @@ import (
 type c16Dom struct {
 	Rsize, R, N, M, L, O, WordSize int
 	Mode                          string
+	Shared                        string // Shared_constraints
 	Ops                           []string
 	Rom                           []string
 	Data                          []string
@@ -52,7 +53,7 @@ func init() {
 				bm := bmj.Dejsoner()
 				r.Rsize = int(bm.Rsize)
 				for _, d := range bm.Domains {
-					cd := c16Dom{Rsize: int(d.Rsize), R: int(d.R), N: int(d.N), M: int(d.M), L: int(d.L), O: int(d.O), WordSize: int(d.WordSize)}
+					cd := c16Dom{Rsize: int(d.Rsize), R: int(d.R), N: int(d.N), M: int(d.M), L: int(d.L), O: int(d.O), WordSize: int(d.WordSize), Shared: d.Shared_constraints}
 					if len(d.Modes) > 0 {
 						cd.Mode = d.Modes[0]
 					}
